@@ -41,6 +41,7 @@ os.environ.setdefault("MKL_NUM_THREADS", "1")
 import copy  # noqa: E402
 import json  # noqa: E402
 import random  # noqa: E402
+import shutil  # noqa: E402
 from concurrent.futures import ProcessPoolExecutor, ThreadPoolExecutor  # noqa: E402
 from pathlib import Path  # noqa: E402
 
@@ -143,7 +144,7 @@ def observe_interp(x, y, lab, dtype="float64", seed=0, labtype="float", supports
     # two more samples at which channels that are no source of any repair hold NaN / inf (a dead channel normalised by its own
     # zero deviation; a clipped sample far away): a repaired channel is a combination of its sources only, so it stays finite
     bad0 = np.isin(np.asarray(lab), (1, 2))
-    xs0, ys0 = np.asarray(x, dtype=float), np.asarray(y, dtype=float)
+    xs0, ys0 = np.array(x, dtype=float), np.array(y, dtype=float)
     srcs = np.zeros(nc, dtype=bool)
     for i in np.where(bad0)[0]:
         if supports is None:
@@ -188,7 +189,7 @@ def observe_interp(x, y, lab, dtype="float64", seed=0, labtype="float", supports
     ov, dv = out.view(bits), data0.view(bits)
     rec["same"] = [i + 1 for i in range(nc) if np.array_equal(ov[i], dv[i])]
     bad = np.isin(np.asarray(lab), (1, 2))
-    xs, ys = np.asarray(x, dtype=float), np.asarray(y, dtype=float)
+    xs, ys = xs0, ys0           # the sites as they were handed over (copies taken before the call: x / y are the caller's objects)
     # single-precision coordinates make single-precision weights: the float32 tolerance applies there as well
     single = dtype != "float64" or form.get("xydt") == "float32"
     tol = (1e-5 if single else 1e-12) * max(1.0, float(np.abs(data0[np.isfinite(data0)]).max()))
@@ -452,10 +453,17 @@ def rule_cases(ctx):
 
 
 def _labels_int(v):
-    out = []
-    for a in np.asarray(v, dtype=float).ravel():
-        out.append(int(a) if np.isfinite(a) and a == int(a) else -1)
-    return out
+    """a label vector as the library returned it -> integers TLC can read. Labels are 0..3: an entry that is no whole number of
+    moderate size (NaN, inf, 2.5, 10^12 - TLC integers are 32-bit) reads -1, which is no label; something that is no vector of
+    numbers at all (None, a string, a ragged list, a dictionary) reads as the vector <<-1>>, which has no probe's length"""
+    try:
+        vec = np.asarray(v)
+        if vec.dtype.kind == "c":
+            vec = np.where(vec.imag == 0, vec.real, np.nan)
+        vec = np.asarray(vec, dtype=float).ravel()
+    except Exception:  # noqa
+        return [-1]
+    return [int(a) if np.isfinite(a) and abs(a) < 1000 and a == int(a) else -1 for a in vec]
 
 
 def flags_of(xf):
@@ -686,6 +694,10 @@ def run_file(job):
         rec["lens"] = [int(c[1][1]) for c in calls]
         if len(calls) != nb or len(slices) < nb or any(c[1][0] != nc for c in calls):
             raise BatchesHanded("number of batches / channels handed to detect_bad_channels")
+        # one label per data channel, from every batch and for the file (None, a scalar, a vector one channel short, the labels of
+        # one batch broadcast from a single value: the trace specification indexes both by channel)
+        if len(rec["result"]) != nc or any(len(c[0]) != nc for c in calls):
+            raise LabelsShape(f"{len(rec['result'])} file-level labels, {sorted({len(c[0]) for c in calls})} per batch for {nc} channels")
         if job["segs"] is not None:
             for k, sc in enumerate(job["segs"]):
                 d = {"kind": "detect", "exc": "", "n": nc, "dead": sc["dead"], "noisy": sc["noisy"], "nrep": sc["nrep"],
@@ -697,10 +709,12 @@ def run_file(job):
     finally:
         voltage.detect_bad_channels = real_detect
         spikeglx.Reader.__getitem__ = real_getitem
-    for f in folder.glob("*"):
-        f.unlink()
-    folder.rmdir()
+    shutil.rmtree(folder, ignore_errors=True)       # whatever the call left there (files, folders)
     return rec, drecs
+
+
+class LabelsShape(Exception):
+    """the answer (or what the wrapped detector returned for a batch) is not one label per data channel"""
 
 
 class BatchesHanded(Exception):
@@ -939,6 +953,9 @@ def describe(meta, rec):
            f"{' stubbed detector' if meta['stub'] is not None else ''}"
 
 
+CONFIRM_MAX = 30
+
+
 def systematic(ctx, m, prop):
     """The detection clauses rest on numeric features crossing thresholds. A scenario that fails is re-run with two other
     background seeds (same faults, same amplitudes): a slip in the code fails all of them, a draw that merely sits at a
@@ -959,11 +976,20 @@ def systematic(ctx, m, prop):
 
 
 def report(ctx, verdicts, metas, recs):
+    # the confirmation runs of `systematic` are bounded (each is two executions and a JVM): a clause already confirmed on three
+    # scenarios, or failing on more scenarios than CONFIRM_MAX could be re-measured, is systematic - a code under test on which
+    # every scenario fails (the detector raises, returns None) must end in its verdict, not in the time limit of the check
+    confirmed, reruns = {}, 0
     for v in verdicts:
         m, r = metas[v["index"]], recs[v["index"]]
         if v["prop"]:
-            if systematic(ctx, m, v["prop"]):
-                ctx.violation(_key(v["prop"]), f"{describe(m, r)}: property-layer clause {v['prop']} false", m)
+            key = _key(v["prop"])
+            if confirmed.get(key, 0) < 3 and reruns < CONFIRM_MAX:
+                reruns += 1 if (m.get("kind") == "detect" and key != "detect:dead-below-top-block") else 0
+                if not systematic(ctx, m, v["prop"]):
+                    continue
+            confirmed[key] = confirmed.get(key, 0) + 1
+            ctx.violation(key, f"{describe(m, r)}: property-layer clause {v['prop']} false", m)
         elif v["impl"] == "interp:oracle-support":
             raise tlc.TLCError(f"the oracle's support sets differ from the spec's on {describe(m, r)}")
         elif v["impl"]:
@@ -974,6 +1000,10 @@ def report(ctx, verdicts, metas, recs):
 def run(ctx):
     ctx.level = "model_checking"
     hs = headers()
+    # the site tables as the library handed them out, kept aside: the arrays in `hs` are the caller's objects of every interp case
+    # below (a call that writes into its x / y arguments is judged there, by the cases that use them again), the comparison of the
+    # model geometries with the real header is about the header
+    hs_asis = {k: (v[0].copy(), v[1].copy()) for k, v in hs.items()}
     with ThreadPoolExecutor(max_workers=1) as bg:
         fut = bg.submit(run_models, ctx)               # TLC in the background while the real code runs
         # ---- code -> spec: executions of the real code -------------------------------------------------
@@ -996,7 +1026,7 @@ def run(ctx):
         except ModelCex as e:
             model_cex(ctx, e, hs)
             return
-    check_constants(ctx, exp, hs)
+    check_constants(ctx, exp, hs_asis)
     # ---- spec -> code ----------------------------------------------------------------------------------
     replay_cases(ctx, exp)
     # ---- validation of the recorded executions by the trace spec ------------------------------------------
